@@ -36,7 +36,7 @@ func c01Canary(t *rapid.T, a *Asker, p *Proxy, kind string, id uint16, what stri
 }
 
 func TestVfC01Listeners(t *testing.T) {
-	st := vfkit.Stats("TestVfC01Listeners", "hostile inputs per listener kind: UDP datagrams (hostile generator, 0-4096 octets), TCP/gnet/DoT frames with truthful/zero/short/long/64 KiB declared lengths, partial frame then FIN or RST, DoH GET (missing dns=, bad base64, padding, 90 KiB, wrong Accept) and POST (empty, garbage, > 65535, wrong content type, other methods), DoQ streams (no FIN, garbage, oversized prefix, half prefix), each followed by a valid canary query; oracle: process alive without panic, whatever comes back is nothing / close / HTTP 4xx-5xx / a well-formed DNS message, and the canary is answered within 2 s; non-trivial = input that is not a valid query")
+	st := vfkit.Stats("TestVfC01Listeners", "hostile inputs per listener kind: UDP datagrams (hostile generator, 0-4096 octets), TCP/gnet/DoT frames with truthful/zero/short/long/64 KiB declared lengths, partial frame then FIN or RST, DoH GET (missing dns=, bad base64, padding, 90 KiB, wrong Accept) and POST (empty, garbage, > 65535, wrong content type, other methods), DoQ streams (no FIN, garbage, oversized prefix, half prefix), hand-written HTTP/1.1 (POST without length, chunked, lying Content-Length, pipelined, HTTP/1.0, TLS or h2 preface on the plain port), octets below the DNS framing (garbage instead of / inside the TLS handshake, a hostile HTTP/2 header block, non-QUIC and half-QUIC datagrams on the DoQ port), each followed by a valid canary query; oracle: process alive without panic, whatever comes back is nothing / close / HTTP 4xx-5xx / a well-formed DNS message, and the canary is answered within 2 s; non-trivial = input that is not a valid query")
 	defer vfkit.Flush()
 	block := NextIPBlock()
 	up, err := StartUpstream("udp", "up", block+"2", 0, nil, func(q *UpQuery) UpAction {
@@ -73,6 +73,79 @@ func TestVfC01Listeners(t *testing.T) {
 			if len(hostile) >= 2 && d.ID != binary.BigEndian.Uint16(hostile) {
 				t.Fatalf("%s: response ID %d does not match the input's ID", where, d.ID)
 			}
+		}
+		// below the DNS framing: octets that arrive before / instead of the TLS or QUIC handshake, or as HTTP/2 frames
+		if (kind == "tls" || kind == "https" || kind == "quic") && rapid.IntRange(0, 4).Draw(t, "preProtocol") == 0 {
+			switch kind {
+			case "quic":
+				uc, err := net.Dial("udp", a.addr("quic"))
+				if err != nil {
+					t.Fatalf("%v", err)
+				}
+				n := rapid.IntRange(1, 4).Draw(t, "datagrams")
+				for i := 0; i < n; i++ {
+					d := append([]byte(nil), hostile...)
+					switch rapid.IntRange(0, 3).Draw(t, "quicShape") {
+					case 0: // long header, version 1, initial
+						d = append([]byte{0xc3, 0, 0, 0, 1, 8, 1, 2, 3, 4, 5, 6, 7, 8, 0, 0}, d...)
+						d = append(d, make([]byte, 1200)...)
+					case 1: // long header, unknown version (version negotiation path)
+						d = append([]byte{0xc0, 0xfa, 0xce, 0xb0, 0x0c, 4, 1, 2, 3, 4, 4, 5, 6, 7, 8}, d...)
+						d = append(d, make([]byte, 1200)...)
+					case 2: // short header (stateless reset path)
+						d = append([]byte{0x40}, d...)
+					}
+					uc.Write(d[:min(len(d), 1400)])
+				}
+				uc.Close()
+				what = fmt.Sprintf("%d non-QUIC / half-QUIC datagrams on the quic listener (class %s)", n, class)
+			default:
+				rc, err := net.DialTimeout("tcp", a.addr(kind), 2*time.Second)
+				if err != nil {
+					t.Fatalf("dial %s: %v", kind, err)
+				}
+				shape := rapid.IntRange(0, 2).Draw(t, "tlsShape")
+				switch {
+				case shape == 0:
+					rc.Write(hostile) // not TLS at all
+					what = fmt.Sprintf("%s: raw octets instead of a TLS handshake (class %s)", kind, class)
+				case shape == 1:
+					rc.Write(append([]byte{0x16, 0x03, 0x01, byte(len(hostile) >> 8), byte(len(hostile)), 0x01}, hostile...)) // handshake record with a hostile ClientHello
+					what = fmt.Sprintf("%s: TLS record with a hostile ClientHello (class %s)", kind, class)
+				default:
+					rc.Close()
+					tcfg := &tls.Config{InsecureSkipVerify: true, NextProtos: []string{"h2"}}
+					if kind == "tls" {
+						tcfg.NextProtos = []string{"dot"}
+					}
+					tconn, err := tls.DialWithDialer(&net.Dialer{Timeout: 2 * time.Second}, "tcp", a.addr(kind), tcfg)
+					if err != nil {
+						t.Fatalf("tls dial %s: %v", kind, err)
+					}
+					rc = tconn
+					if kind == "https" {
+						// HTTP/2 preface, empty SETTINGS, then a HEADERS frame whose block is the hostile octets
+						fr := []byte("PRI * HTTP/2.0\r\n\r\nSM\r\n\r\n")
+						fr = append(fr, 0, 0, 0, 4, 0, 0, 0, 0, 0)
+						h := hostile[:min(len(hostile), 16000)]
+						fr = append(fr, byte(len(h)>>16), byte(len(h)>>8), byte(len(h)), 1, 5, 0, 0, 0, 1)
+						fr = append(fr, h...)
+						rc.Write(fr)
+						what = fmt.Sprintf("https: HTTP/2 HEADERS frame with a hostile header block (class %s)", class)
+					} else {
+						rc.Write(hostile[:len(hostile)/2]) // half of something, then silence until the server gives up
+						what = fmt.Sprintf("tls: unframed octets after the handshake (class %s)", class)
+					}
+				}
+				rc.SetReadDeadline(time.Now().Add(60 * time.Millisecond))
+				io.Copy(io.Discard, rc)
+				rc.Close()
+			}
+			c01Canary(t, a, p, kind, id, what)
+			st.Case(vfkit.Fingerprint(kind, what, hostile), true, []string{"listener=" + kind, "class=" + class, "below-dns-framing"}, func() any {
+				return map[string]any{"listener": kind, "what": what, "input": vfkit.Hex(hostile)}
+			})
+			return
 		}
 		switch kind {
 		case "udp":
